@@ -678,3 +678,243 @@ Proof.
   cbn [remove_name]. destruct (score_cmp sc s); cbn [ht avl]; (split; [reflexivity|]);
     intros (Al & Ar & Eh & Hb); rewrite ?IHl1, ?IHr1; tauto.
 Qed.
+
+(* ================================================================== the names of one node *)
+Definition names_sorted (ns : list bytes) : Prop := StronglySorted blt ns.
+
+Lemma In_names_add x m ns : In x (names_add m ns) <-> x = m \/ In x ns.
+Proof.
+  induction ns as [|y r IH]; cbn.
+  - split; [intros [H|[]]; left; congruence|intros [H|[]]; left; congruence].
+  - destruct (bytes_cmp m y) eqn:C.
+    + apply bytes_cmp_eq in C. subst y. cbn. split; [tauto|]. intros [->|H]; [left; reflexivity|exact H].
+    + cbn. split; [intros [H|H]; [left; congruence|right; exact H]|intros [H|H]; [left; congruence|right; exact H]].
+    + cbn. rewrite IH. tauto.
+Qed.
+
+Lemma names_add_sorted m ns : names_sorted ns -> names_sorted (names_add m ns).
+Proof.
+  unfold names_sorted. induction ns as [|y r IH]; cbn; intros S.
+  - repeat constructor.
+  - apply StronglySorted_inv in S as [S F]. destruct (bytes_cmp m y) eqn:C.
+    + constructor; assumption.
+    + constructor; [constructor; assumption|]. constructor; [exact C|].
+      eapply Forall_impl; [|exact F]. intros a Ha. eapply blt_trans; [exact C|exact Ha].
+    + constructor; [apply IH; exact S|].
+      apply Forall_forall. intros a Ha. apply In_names_add in Ha as [->|Ha].
+      * apply bytes_cmp_gt_lt. exact C.
+      * rewrite Forall_forall in F. apply F. exact Ha.
+Qed.
+
+Lemma names_add_nonempty m ns : names_add m ns <> [].
+Proof. destruct ns as [|y r]; cbn; [discriminate|]. destruct (bytes_cmp m y); discriminate. Qed.
+
+Lemma names_sorted_notin y r : names_sorted (y :: r) -> ~ In y r.
+Proof.
+  intros S H. apply StronglySorted_inv in S as [_ F]. rewrite Forall_forall in F.
+  apply F in H. eapply blt_irrefl; exact H.
+Qed.
+
+Lemma names_sorted_NoDup ns : names_sorted ns -> NoDup ns.
+Proof.
+  induction ns as [|y r IH]; intros S; constructor.
+  - apply names_sorted_notin; exact S.
+  - apply IH. apply StronglySorted_inv in S. tauto.
+Qed.
+
+Lemma In_names_del x m ns : names_sorted ns -> (In x (names_del m ns) <-> In x ns /\ x <> m).
+Proof.
+  induction ns as [|y r IH]; cbn; intros S; [tauto|].
+  pose proof (names_sorted_notin _ _ S) as Ny.
+  apply StronglySorted_inv in S as [S F].
+  destruct (bytes_eqb_spec m y) as [->|N].
+  - split.
+    + intros H. split; [right; exact H|]. intros ->. contradiction.
+    + intros [[H|H] Hn]; [congruence|exact H].
+  - cbn. rewrite IH by exact S. split.
+    + intros [H|H]; [split; [left; exact H|congruence]|tauto].
+    + intros [[H|H] Hn]; [left; exact H|right; tauto].
+Qed.
+
+Lemma names_del_sorted m ns : names_sorted ns -> names_sorted (names_del m ns).
+Proof.
+  unfold names_sorted. induction ns as [|y r IH]; cbn; intros S; [constructor|].
+  pose proof S as S0. apply StronglySorted_inv in S as [S F].
+  destruct (bytes_eqb m y); [exact S|].
+  constructor; [apply IH; exact S|].
+  apply Forall_forall. intros a Ha. apply In_names_del in Ha as [Ha _]; [|exact S].
+  rewrite Forall_forall in F. apply F; exact Ha.
+Qed.
+
+Lemma names_del_length m ns : In m ns -> zlength (names_del m ns) = zlength ns - 1.
+Proof.
+  unfold zlength. induction ns as [|y r IH]; cbn [names_del In]; [contradiction|].
+  destruct (bytes_eqb_spec m y) as [->|N]; intros H.
+  - cbn [List.length]. lia.
+  - destruct H as [H|H]; [congruence|]. cbn [List.length]. rewrite Nat2Z.inj_succ, IH by exact H.
+    cbn [List.length]. lia.
+Qed.
+
+Lemma index_of_split m ns :
+  In m ns -> exists n1 n2, ns = n1 ++ m :: n2 /\ index_of m ns = zlength n1.
+Proof.
+  unfold zlength. induction ns as [|y r IH]; cbn [index_of In]; [contradiction|].
+  destruct (bytes_eqb_spec m y) as [->|N]; intros H.
+  - exists [], r. split; reflexivity.
+  - destruct H as [H|H]; [congruence|]. destruct (IH H) as (n1 & n2 & E & I).
+    exists (y :: n1), n2. split; [rewrite E; reflexivity|]. rewrite I. cbn [List.length]. lia.
+Qed.
+
+(* ================================================================== members in order *)
+Definition elt := (bytes * score)%type.
+
+(* the order of ZRANGE: by score, members of one score by name *)
+Definition elt_lt (a b : elt) : Prop :=
+  slt (snd a) (snd b) \/ (snd a = snd b /\ blt (fst a) (fst b)).
+
+Lemma flat_cons e es : flat (e :: es) = flat_entry e ++ flat es.
+Proof. reflexivity. Qed.
+
+Lemma flat_app l1 l2 : flat (l1 ++ l2) = flat l1 ++ flat l2.
+Proof. unfold flat. apply flat_map_app. Qed.
+
+Lemma In_flat m sc es : In (m, sc) (flat es) <-> exists ns, In (sc, ns) es /\ In m ns.
+Proof.
+  unfold flat. rewrite in_flat_map. split.
+  - intros ([s ns] & H1 & H2). unfold flat_entry in H2. cbn in H2.
+    apply in_map_iff in H2 as (n & E & Hn). inversion E; subst. exists ns. split; assumption.
+  - intros (ns & H1 & H2). exists (sc, ns). split; [exact H1|].
+    unfold flat_entry. cbn. apply in_map_iff. exists m. split; [reflexivity|exact H2].
+Qed.
+
+Lemma zlength_app {A} (l1 l2 : list A) : zlength (l1 ++ l2) = zlength l1 + zlength l2.
+Proof. unfold zlength. rewrite app_length. lia. Qed.
+
+Lemma zlength_flat_entry e : zlength (flat_entry e) = zlength (snd e).
+Proof. unfold zlength, flat_entry. rewrite map_length. reflexivity. Qed.
+
+Lemma zlength_nonneg {A} (l : list A) : 0 <= zlength l.
+Proof. unfold zlength. lia. Qed.
+
+Lemma StronglySorted_app {A} (R : A -> A -> Prop) l1 l2 :
+  StronglySorted R l1 -> StronglySorted R l2 -> (forall a b, In a l1 -> In b l2 -> R a b) ->
+  StronglySorted R (l1 ++ l2).
+Proof.
+  induction l1 as [|x l1 IH]; cbn; intros S1 S2 H; [exact S2|].
+  apply StronglySorted_inv in S1 as [S1 F]. constructor.
+  - apply IH; [exact S1|exact S2|]. intros a b Ha Hb. apply H; [right; exact Ha|exact Hb].
+  - rewrite Forall_app. split; [exact F|]. apply Forall_forall. intros b Hb. apply H; [left; reflexivity|exact Hb].
+Qed.
+
+Lemma flat_entry_sorted s ns : names_sorted ns -> StronglySorted elt_lt (flat_entry (s, ns)).
+Proof.
+  unfold flat_entry, names_sorted. cbn. induction ns as [|y r IH]; cbn; intros S; [constructor|].
+  apply StronglySorted_inv in S as [S F]. constructor; [apply IH; exact S|].
+  apply Forall_forall. intros [n s'] Hn. apply in_map_iff in Hn as (n0 & E & Hn0). inversion E; subst.
+  right. cbn. split; [reflexivity|]. rewrite Forall_forall in F. apply F; exact Hn0.
+Qed.
+
+Definition names_ok (es : list entry) : Prop :=
+  Forall (fun e => snd e <> [] /\ names_sorted (snd e)) es.
+
+Lemma flat_sorted es : sorted es -> names_ok es -> StronglySorted elt_lt (flat es).
+Proof.
+  induction es as [|[s ns] r IH]; intros S N; [constructor|].
+  apply sorted_cons_inv in S as [S G]. apply Forall_cons_iff in N as [[_ N1] N2]. cbn in N1, G.
+  rewrite flat_cons. apply StronglySorted_app.
+  - apply flat_entry_sorted; exact N1.
+  - apply IH; assumption.
+  - intros [m1 s1] [m2 s2] H1 H2. unfold flat_entry in H1. cbn in H1.
+    apply in_map_iff in H1 as (n & E & _). inversion E; subst.
+    apply In_flat in H2 as (ns2 & H2 & _). left. cbn.
+    unfold all_gt in G. rewrite Forall_forall in G. apply (G _ H2).
+Qed.
+
+Lemma elt_lt_irrefl a : ~ elt_lt a a.
+Proof. intros [H|[_ H]]; [eapply slt_irrefl; exact H|eapply blt_irrefl; exact H]. Qed.
+
+Lemma StronglySorted_NoDup {A} (R : A -> A -> Prop) l :
+  (forall a, ~ R a a) -> StronglySorted R l -> NoDup l.
+Proof.
+  intros Irr. induction l as [|x l IH]; intros S; constructor.
+  - apply StronglySorted_inv in S as [_ F]. intros H. rewrite Forall_forall in F. apply (Irr x). apply F; exact H.
+  - apply IH. apply StronglySorted_inv in S. tauto.
+Qed.
+
+Lemma NoDup_map_fst {A C} (l : list (A * C)) :
+  NoDup l -> (forall a b1 b2, In (a, b1) l -> In (a, b2) l -> b1 = b2) -> NoDup (map fst l).
+Proof.
+  induction l as [|[a b] l IH]; cbn; intros ND F; constructor.
+  - intros H. apply in_map_iff in H as ([a' b'] & E & H). cbn in E. subst a'.
+    assert (b = b') by (apply (F a); [left; reflexivity|right; exact H]). subst b'.
+    inversion ND; subst. contradiction.
+  - inversion ND; subst. apply IH; [assumption|]. intros a0 b1 b2 Q1 Q2. apply (F a0); right; assumption.
+Qed.
+
+(* ---- rank ---- *)
+Fixpoint lrank (sc : score) (es : list entry) : Z :=
+  match es with
+  | [] => 0
+  | (s, ns) :: r => (if score_ltb s sc then zlength ns else 0) + lrank sc r
+  end.
+
+Lemma lrank_app sc l1 l2 : lrank sc (l1 ++ l2) = lrank sc l1 + lrank sc l2.
+Proof. induction l1 as [|[s ns] r IH]; cbn; [reflexivity|]. rewrite IH. lia. Qed.
+
+Lemma lrank_all_lt sc es : all_lt sc es -> lrank sc es = zlength (flat es).
+Proof.
+  induction es as [|[s ns] r IH]; intros H; [reflexivity|].
+  apply Forall_cons_iff in H as [H1 H2]. cbn in H1. cbn [lrank].
+  apply score_ltb_lt in H1. rewrite H1, IH by exact H2.
+  rewrite flat_cons, zlength_app, zlength_flat_entry. reflexivity.
+Qed.
+
+Lemma lrank_none sc es : Forall (fun e => ~ slt (fst e) sc) es -> lrank sc es = 0.
+Proof.
+  induction es as [|[s ns] r IH]; intros H; [reflexivity|].
+  apply Forall_cons_iff in H as [H1 H2]. cbn in H1. cbn [lrank].
+  destruct (score_ltb s sc) eqn:E; [apply score_ltb_lt in E; contradiction|].
+  rewrite IH by exact H2. reflexivity.
+Qed.
+
+Lemma count_elems t : count t = zlength (flat (elems t)).
+Proof.
+  induction t as [|l IHl s ns h r IHr]; [reflexivity|].
+  cbn [count elems]. rewrite flat_app, flat_cons, !zlength_app, zlength_flat_entry, IHl, IHr. cbn. lia.
+Qed.
+
+Lemma rank_elems t sc : bst t -> rank t sc = lrank sc (elems t).
+Proof.
+  induction t as [|l IHl s ns h r IHr]; intros B; [reflexivity|].
+  apply bst_node_inv in B as (Bl & Br & L & G). cbn [rank elems].
+  rewrite lrank_app. cbn [lrank].
+  destruct (score_ltb s sc) eqn:E.
+  - apply score_ltb_lt in E. rewrite IHr by exact Br.
+    rewrite (lrank_all_lt sc (elems l)) by (eapply all_lt_trans; eassumption).
+    rewrite count_elems. lia.
+  - rewrite IHl by exact Bl. rewrite (lrank_none sc (elems r)); [lia|].
+    eapply Forall_impl; [|exact G]. cbn. intros e He Hlt.
+    assert (slt s sc) by (eapply slt_trans; eassumption).
+    apply score_ltb_lt in H. congruence.
+Qed.
+
+(* the rank computed by the tree is the number of members listed before (m, sc) *)
+Lemma rank_position es sc ns m :
+  sorted es -> In (sc, ns) es -> In m ns ->
+  exists pre post, flat es = pre ++ (m, sc) :: post /\ lrank sc es + index_of m ns = zlength pre.
+Proof.
+  intros S Hin Hm.
+  apply in_split in Hin as (l1 & l2 & E). subst es.
+  apply sorted_app_inv in S as (_ & _ & L & G). cbn [fst] in L, G.
+  destruct (index_of_split m ns Hm) as (n1 & n2 & En & Ei).
+  exists (flat l1 ++ map (fun n => (n, sc)) n1), (map (fun n => (n, sc)) n2 ++ flat l2).
+  split.
+  - rewrite flat_app, flat_cons. unfold flat_entry. cbn [fst snd]. rewrite En, map_app. cbn [map].
+    rewrite <- !app_assoc. reflexivity.
+  - rewrite lrank_app. cbn [lrank].
+    rewrite (lrank_all_lt sc l1) by exact L.
+    destruct (score_ltb sc sc) eqn:Q; [apply score_ltb_lt in Q; exfalso; eapply slt_irrefl; exact Q|].
+    rewrite (lrank_none sc l2).
+    + rewrite zlength_app, Ei. unfold zlength. rewrite map_length. lia.
+    + eapply Forall_impl; [|exact G]. cbn. intros e He. apply slt_asym; exact He.
+Qed.
